@@ -1207,7 +1207,7 @@ XSValue::getActValNumerics(const XMLCh*         const content
             XMLFloat data(content, manager);
             XSValue* retVal = new (manager) XSValue(dt_float, manager);
 
-            if (data.isDataConverted())
+            if (data.isDataConverted() || data.getType() != XMLAbstractDoubleFloat::Normal)
             {
                 retVal->fData.fValue.f_floatType.f_float = 0.0;
                 retVal->fData.fValue.f_floatType.f_floatEnum = DoubleFloatType_Zero;
@@ -1240,7 +1240,7 @@ XSValue::getActValNumerics(const XMLCh*         const content
             XMLDouble  data(content, manager);
             XSValue* retVal = new (manager) XSValue(dt_double, manager);
 
-            if (data.isDataConverted())
+            if (data.isDataConverted() || data.getType() != XMLAbstractDoubleFloat::Normal)
             {
                 retVal->fData.fValue.f_doubleType.f_double = 0.0;
                 retVal->fData.fValue.f_doubleType.f_doubleEnum = DoubleFloatType_Zero;
